@@ -218,6 +218,17 @@ class ilu_solve< backend::builtin<value_type, col_type, ptr_type> > {
 #endif
         }
 
+        // Number of threads in the team that executes the current parallel
+        // region. It may differ from num_threads() seen at setup (nested
+        // regions, thread limits, omp_set_num_threads(), OMP_DYNAMIC).
+        static int team_size() {
+#ifdef _OPENMP
+            return omp_get_num_threads();
+#else
+            return 1;
+#endif
+        }
+
         // copies of the input matrices for the fallback (serial)
         // implementation:
         std::shared_ptr<matrix>          L;
@@ -330,27 +341,30 @@ class ilu_solve< backend::builtin<value_type, col_type, ptr_type> > {
 
 #pragma omp parallel
                 {
-                    int tid = thread_id();
-                    tasks[tid].reserve(nlev);
+                    // The team may be smaller than nthreads: every task list
+                    // has to be filled by somebody.
+                    for(int tid = thread_id(); tid < nthreads; tid += team_size()) {
+                        tasks[tid].reserve(nlev);
 
-                    for(ptrdiff_t lev = 0; lev < nlev; ++lev) {
-                        // split each level into tasks.
-                        ptrdiff_t lev_size = start[lev+1] - start[lev];
-                        ptrdiff_t chunk_size = (lev_size + nthreads - 1) / nthreads;
+                        for(ptrdiff_t lev = 0; lev < nlev; ++lev) {
+                            // split each level into tasks.
+                            ptrdiff_t lev_size = start[lev+1] - start[lev];
+                            ptrdiff_t chunk_size = (lev_size + nthreads - 1) / nthreads;
 
-                        ptrdiff_t beg = std::min(tid * chunk_size, lev_size);
-                        ptrdiff_t end = std::min(beg + chunk_size, lev_size);
+                            ptrdiff_t beg = std::min(tid * chunk_size, lev_size);
+                            ptrdiff_t end = std::min(beg + chunk_size, lev_size);
 
-                        beg += start[lev];
-                        end += start[lev];
+                            beg += start[lev];
+                            end += start[lev];
 
-                        tasks[tid].push_back(task(beg, end));
+                            tasks[tid].push_back(task(beg, end));
 
-                        // count rows and nonzeros in the current task
-                        thread_rows[tid] += end - beg;
-                        for(ptrdiff_t i = beg; i < end; ++i) {
-                            ptrdiff_t j = order[i];
-                            thread_cols[tid] += A.ptr[j+1] - A.ptr[j];
+                            // count rows and nonzeros in the current task
+                            thread_rows[tid] += end - beg;
+                            for(ptrdiff_t i = beg; i < end; ++i) {
+                                ptrdiff_t j = order[i];
+                                thread_cols[tid] += A.ptr[j+1] - A.ptr[j];
+                            }
                         }
                     }
                 }
@@ -360,60 +374,72 @@ class ilu_solve< backend::builtin<value_type, col_type, ptr_type> > {
 
 #pragma omp parallel
                 {
-                    int tid = thread_id();
+                    for(int tid = thread_id(); tid < nthreads; tid += team_size()) {
+                        col[tid].reserve(thread_cols[tid]);
+                        val[tid].reserve(thread_cols[tid]);
+                        ord[tid].reserve(thread_rows[tid]);
+                        ptr[tid].reserve(thread_rows[tid] + 1);
+                        ptr[tid].push_back(0);
 
-                    col[tid].reserve(thread_cols[tid]);
-                    val[tid].reserve(thread_cols[tid]);
-                    ord[tid].reserve(thread_rows[tid]);
-                    ptr[tid].reserve(thread_rows[tid] + 1);
-                    ptr[tid].push_back(0);
+                        if (!lower) D[tid].reserve(thread_rows[tid]);
 
-                    if (!lower) D[tid].reserve(thread_rows[tid]);
+                        for(task &t : tasks[tid]) {
+                            ptrdiff_t loc_beg = ptr[tid].size() - 1;
+                            ptrdiff_t loc_end = loc_beg;
 
-                    for(task &t : tasks[tid]) {
-                        ptrdiff_t loc_beg = ptr[tid].size() - 1;
-                        ptrdiff_t loc_end = loc_beg;
+                            for(ptrdiff_t r = t.beg; r < t.end; ++r, ++loc_end) {
+                                ptrdiff_t i = order[r];
+                                if (!lower) D[tid].push_back(_D[i]);
 
-                        for(ptrdiff_t r = t.beg; r < t.end; ++r, ++loc_end) {
-                            ptrdiff_t i = order[r];
-                            if (!lower) D[tid].push_back(_D[i]);
+                                ord[tid].push_back(i);
 
-                            ord[tid].push_back(i);
+                                for(auto j = A.ptr[i]; j < A.ptr[i+1]; ++j) {
+                                    col[tid].push_back(A.col[j]);
+                                    val[tid].push_back(A.val[j]);
+                                }
 
-                            for(auto j = A.ptr[i]; j < A.ptr[i+1]; ++j) {
-                                col[tid].push_back(A.col[j]);
-                                val[tid].push_back(A.val[j]);
+                                ptr[tid].push_back(col[tid].size());
                             }
 
-                            ptr[tid].push_back(col[tid].size());
+                            t.beg = loc_beg;
+                            t.end = loc_end;
                         }
-
-                        t.beg = loc_beg;
-                        t.end = loc_end;
                     }
                 }
             }
 
             template <class Vector>
             void solve(Vector &x) const {
+                // every task list has one entry per level:
+                const size_t nlev = tasks[0].size();
+
 #pragma omp parallel
                 {
-                    int tid = thread_id();
+                    // The team that executes this region may be smaller than
+                    // the number of threads the tasks were created for. Each
+                    // thread takes every team_size()-th task of the level,
+                    // so that no task is skipped.
+                    const int first = thread_id();
+                    const int team  = team_size();
 
-                    for(const task &t : tasks[tid]) {
-                        for(ptrdiff_t r = t.beg; r < t.end; ++r) {
-                            ptrdiff_t i   = ord[tid][r];
-                            ptrdiff_t beg = ptr[tid][r];
-                            ptrdiff_t end = ptr[tid][r+1];
+                    for(size_t lev = 0; lev < nlev; ++lev) {
+                        for(int tid = first; tid < nthreads; tid += team) {
+                            const task &t = tasks[tid][lev];
 
-                            rhs_type X = math::zero<rhs_type>();
-                            for(ptrdiff_t j = beg; j < end; ++j)
-                                X += val[tid][j] * x[col[tid][j]];
+                            for(ptrdiff_t r = t.beg; r < t.end; ++r) {
+                                ptrdiff_t i   = ord[tid][r];
+                                ptrdiff_t beg = ptr[tid][r];
+                                ptrdiff_t end = ptr[tid][r+1];
 
-                            if (lower)
-                                x[i] -= X;
-                            else
-                                x[i] = D[tid][r] * (x[i] - X);
+                                rhs_type X = math::zero<rhs_type>();
+                                for(ptrdiff_t j = beg; j < end; ++j)
+                                    X += val[tid][j] * x[col[tid][j]];
+
+                                if (lower)
+                                    x[i] -= X;
+                                else
+                                    x[i] = D[tid][r] * (x[i] - X);
+                            }
                         }
 
                         // each task corresponds to a level, so we need
